@@ -1,6 +1,7 @@
 from .parameter_group_number import ParameterGroupNumber
 from .message_id import MessageId, FrameFormat
 import logging
+import threading
 import time
 import numpy as np
 
@@ -65,6 +66,8 @@ class J1939_22:
         self._snd_buffer = {}
         # Multi-PG Send buffers
         self._multi_pg_snd_buffer = {}
+        # send_pgn (any thread) and the job thread both work on the multi-pg buffers
+        self._multi_pg_lock = threading.Lock()
 
         # List of ControllerApplication
         self._cas = []
@@ -220,27 +223,29 @@ class J1939_22:
             else:
                 session = 0
                 deadline = time.time() + time_limit
-                while True:
-                    hash = self._buffer_hash_mpg(frame_format, session, src_address, dst_address)
-                    #hash = self._buffer_hash(session, src_address, dst_address)
-                    if hash not in self._multi_pg_snd_buffer:
-                        self._multi_pg_snd_buffer[hash] = {'deadline': deadline, 'cpg': [cpg], 'fill_level': 4 + data_length}
-                        break
-                    elif (self._multi_pg_snd_buffer[hash]['fill_level'] <= (self.DataLength.TP - data_length)):
-                        # update fill level
-                        self._multi_pg_snd_buffer[hash]['fill_level'] += 4 + data_length
-                        # update deadline
-                        if self._multi_pg_snd_buffer[hash]['deadline'] > deadline:
-                            self._multi_pg_snd_buffer[hash]['deadline'] = deadline
-                        # append c-pg
-                        self._multi_pg_snd_buffer[hash]['cpg'].append(cpg)
-                        break
-                    else:
-                        # trigger sending
-                        self._multi_pg_snd_buffer[hash]['deadline'] = time.time()
-                        self.__job_thread_wakeup()
-                        # get next buffer
-                        session += 1
+                # (under the lock: the job thread takes due buffers out of the table)
+                with self._multi_pg_lock:
+                    while True:
+                        hash = self._buffer_hash_mpg(frame_format, session, src_address, dst_address)
+                        #hash = self._buffer_hash(session, src_address, dst_address)
+                        if hash not in self._multi_pg_snd_buffer:
+                            self._multi_pg_snd_buffer[hash] = {'deadline': deadline, 'cpg': [cpg], 'fill_level': 4 + data_length}
+                            break
+                        elif (self._multi_pg_snd_buffer[hash]['fill_level'] <= (self.DataLength.TP - data_length)):
+                            # update fill level
+                            self._multi_pg_snd_buffer[hash]['fill_level'] += 4 + data_length
+                            # update deadline
+                            if self._multi_pg_snd_buffer[hash]['deadline'] > deadline:
+                                self._multi_pg_snd_buffer[hash]['deadline'] = deadline
+                            # append c-pg
+                            self._multi_pg_snd_buffer[hash]['cpg'].append(cpg)
+                            break
+                        else:
+                            # trigger sending
+                            self._multi_pg_snd_buffer[hash]['deadline'] = time.time()
+                            self.__job_thread_wakeup()
+                            # get next buffer
+                            session += 1
                 # the job thread has to recalculate its wakeup for the new deadline
                 self.__job_thread_wakeup()
         else:
@@ -385,19 +390,22 @@ class J1939_22:
 
         # check multi-pg send buffers for timeout
         # using 'list(x)' to prevent 'RuntimeError: dictionary changed size during iteration'
-        for bufid in list(self._multi_pg_snd_buffer):
-            buf = self._multi_pg_snd_buffer[bufid]
-            if buf['deadline'] > now:
-                if next_wakeup > buf['deadline']:
-                    next_wakeup = buf['deadline']
-            else:
-                # deadline reached
-                frame_format, session_num, src_address, dst_address = self._buffer_unhash_mpg(bufid)
-
-                # take the buffer out first: a group added while the frame is written starts a new one
-                del self._multi_pg_snd_buffer[bufid]
-
-                self.__send_multi_pg(frame_format, buf['cpg'], src_address, dst_address)
+        due = []
+        with self._multi_pg_lock:
+            for bufid in list(self._multi_pg_snd_buffer):
+                buf = self._multi_pg_snd_buffer[bufid]
+                if buf['deadline'] > now:
+                    if next_wakeup > buf['deadline']:
+                        next_wakeup = buf['deadline']
+                else:
+                    # deadline reached
+                    # take the buffer out first: a group added while the frame is written starts a new one
+                    del self._multi_pg_snd_buffer[bufid]
+                    due.append((bufid, buf))
+        # (the frames are written outside the lock)
+        for bufid, buf in due:
+            frame_format, session_num, src_address, dst_address = self._buffer_unhash_mpg(bufid)
+            self.__send_multi_pg(frame_format, buf['cpg'], src_address, dst_address)
 
 
         # check send buffers
